@@ -151,7 +151,7 @@ pub fn one_history(id: u64, seed: u64, max_ops: usize, big: bool) {
     let default_cap = big && rng.gen_range(0..4) == 0;
     let cap_req = [4usize, 4, 5, 8, 8, 16, 21, 40, 64][rng.gen_range(0..9)];
     let mut w = if default_cap {
-        DeferredWriter::from_write(sink)
+        if rng.gen_bool(0.5) { DeferredWriter::from_write(sink) } else { DeferredWriter::from_boxed_dyn_write(Box::new(sink)) }
     } else {
         DeferredWriter::verif_with_capacity(sink, cap_req)
     };
